@@ -716,6 +716,14 @@ def m_default(it, argv, text):
         return 0
     if b == 'bool':
         return False
+    if b in ('Mutex', 'RwLock', 'RefCell', 'Cell'):
+        from .parser import split_top as _st
+        mm = re.match(r'^[\w:]*?(?:Mutex|RwLock|RefCell|Cell)<(.*)>$', t.strip())
+        if mm:
+            inner = m_default(it, [], '<%s as Default>::default' % mm.group(1))
+            return RefV(it.alloc(inner))          # same representation as Mutex::new
+    if b == 'Option':
+        return NONE
     raise Unsupported("Default for " + t)
 
 
